@@ -120,12 +120,12 @@ func (tc *templateChecker) checkLoopFunc(node *ast.FunctionNode) {
 	default:
 		return
 	}
-	if len(node.Args) == 0 {
-		return
+	if len(node.Args) != 1 {
+		panic(fmt.Errorf("function %s takes the variable of an enclosing loop, got %d arguments", node.Name, len(node.Args)))
 	}
 	var ref, ok = node.Args[0].(*ast.DataRefNode)
-	if !ok {
-		return
+	if !ok || len(ref.Access) != 0 {
+		panic(fmt.Errorf("function %s: %s is not the variable of an enclosing loop", node.Name, node.Args[0]))
 	}
 	for _, v := range tc.vars {
 		if !v.let && v.name == ref.Key {
